@@ -51,6 +51,7 @@ from mashumaro.core.meta.helpers import (
     is_local_type_name,
     is_named_tuple,
     is_optional,
+    is_type_var,
     is_type_var_any,
     is_union,
     resolve_type_params,
@@ -233,6 +234,13 @@ class CodeBuilder:
 
         if is_local_type_name(field_type):
             field_type = clean_id(field_type)
+            while (
+                resolved_type_params
+                and is_type_var(typ)
+                and resolved_type_params.get(typ, typ) is not typ
+            ):
+                # the name rendered above is the one of the resolved type
+                typ = resolved_type_params[typ]  # type: ignore
             self.ensure_object_imported(typ, field_type)
 
         return field_type
